@@ -202,3 +202,143 @@ Proof.
   - cbn. apply Permutation_refl.
   - repeat constructor; cbn; intuition; discriminate.
 Qed.
+
+(* ---- Under rust_decimal rounding (Proofs/C15Dec.v).  The exact theorem
+   C15_inserted_split composed with the accumulation bound of C01
+   (C01_rounding_error_accumulates, Proofs/DecAccumulate.v): if the original
+   history pre ++ post and the history with the split inserted and the later
+   rows restated, pre ++ Sp ++ map (scale_tx f) post, are both in the
+   accumulation class [in_class k] (hypotheses of the accumulation theorem taken
+   over verbatim, for each of the two histories: rows valid, no superficial
+   loss on either side, equal share balances, non-registered affiliates,
+   quantities <= 10^k - in particular the SCALED quantities -, rates <= 10),
+   then the exact reports decompose as in C15_inserted_split and
+   * a row before the split (index i in both rounded reports) shows gains and
+     cost bases within 2 (i+1) cR k of each other,
+   * a later row (index i = |ds1| + j in the original rounded report, index
+     i' = |ds1| + |dss| + j in the restated one, |dss| = the inserted split
+     rows) shows gains and cost bases within ((i+1) + (i'+1)) cR k of each other.
+   [money_close e d d'] = the gains and the total cost bases of the two rows are
+   both absent or within e. *)
+From ACB Require Import Base.Fit Proofs.DecRowError Proofs.DecAccumulate Proofs.C15Dec.
+Theorem C15_dec_split_neutral_bound : forall (k : nat) f dS regof Sp pre post dA oA eA oeA dB oB eB oeB,
+  (2 * k + 2 <= 28)%nat ->
+  (0 < f)%Qc ->
+  Forall (fsplit f dS) Sp -> NoDup (ids_of Sp) ->
+  Forall (fun x => In (af_id (t_af x)) (ids_of Sp) /\ goodaf regof (t_af x)) (pre ++ Sp ++ post) ->
+  Forall (fun x => (t_sd x <= dS)%Z) pre -> Forall (fun x => (dS <= t_sd x)%Z) post ->
+  Forall no_int_only post ->
+  Forall (fun t => valid_tx t = true) (pre ++ post) ->
+  Forall (fun t => valid_tx t = true) (pre ++ Sp ++ map (scale_tx f) post) ->
+  run dec None (pre ++ post) = (dA, oA) -> run exact None (pre ++ post) = (eA, oeA) ->
+  in_class k dA eA = true ->
+  run dec None (pre ++ Sp ++ map (scale_tx f) post) = (dB, oB) ->
+  run exact None (pre ++ Sp ++ map (scale_tx f) post) = (eB, oeB) ->
+  in_class k dB eB = true ->
+  exists ds1 ds2 dss,
+    eA = ds1 ++ ds2 /\ eB = ds1 ++ dss ++ map (sc_delta f) ds2 /\ oeA = oeB /\ Forall neutral dss /\
+    (forall i dd dd', (i < length ds1)%nat -> nth_error dA i = Some dd -> nth_error dB i = Some dd' ->
+       money_close (QcZ (Z.of_nat (S i)) * cR k + QcZ (Z.of_nat (S i)) * cR k)%Qc dd dd') /\
+    (forall j dd dd', (j < length ds2)%nat ->
+       nth_error dA (length ds1 + j) = Some dd -> nth_error dB (length ds1 + length dss + j) = Some dd' ->
+       money_close (QcZ (Z.of_nat (S (length ds1 + j))) * cR k
+                    + QcZ (Z.of_nat (S (length ds1 + length dss + j))) * cR k)%Qc dd dd').
+Proof. exact C15Dec.dec_split_neutral_bound. Qed.
+Check C15_dec_split_neutral_bound : forall (k : nat) f dS regof Sp pre post dA oA eA oeA dB oB eB oeB,
+  (2 * k + 2 <= 28)%nat ->
+  (0 < f)%Qc ->
+  Forall (fsplit f dS) Sp -> NoDup (ids_of Sp) ->
+  Forall (fun x => In (af_id (t_af x)) (ids_of Sp) /\ goodaf regof (t_af x)) (pre ++ Sp ++ post) ->
+  Forall (fun x => (t_sd x <= dS)%Z) pre -> Forall (fun x => (dS <= t_sd x)%Z) post ->
+  Forall no_int_only post ->
+  Forall (fun t => valid_tx t = true) (pre ++ post) ->
+  Forall (fun t => valid_tx t = true) (pre ++ Sp ++ map (scale_tx f) post) ->
+  run dec None (pre ++ post) = (dA, oA) -> run exact None (pre ++ post) = (eA, oeA) ->
+  in_class k dA eA = true ->
+  run dec None (pre ++ Sp ++ map (scale_tx f) post) = (dB, oB) ->
+  run exact None (pre ++ Sp ++ map (scale_tx f) post) = (eB, oeB) ->
+  in_class k dB eB = true ->
+  exists ds1 ds2 dss,
+    eA = ds1 ++ ds2 /\ eB = ds1 ++ dss ++ map (sc_delta f) ds2 /\ oeA = oeB /\ Forall neutral dss /\
+    (forall i dd dd', (i < length ds1)%nat -> nth_error dA i = Some dd -> nth_error dB i = Some dd' ->
+       money_close (QcZ (Z.of_nat (S i)) * cR k + QcZ (Z.of_nat (S i)) * cR k)%Qc dd dd') /\
+    (forall j dd dd', (j < length ds2)%nat ->
+       nth_error dA (length ds1 + j) = Some dd -> nth_error dB (length ds1 + length dss + j) = Some dd' ->
+       money_close (QcZ (Z.of_nat (S (length ds1 + j))) * cR k
+                    + QcZ (Z.of_nat (S (length ds1 + length dss + j))) * cR k)%Qc dd dd').
+Print Assumptions C15_dec_split_neutral_bound.
+
+(* what [money_close] says, spelled out *)
+Theorem C15_money_close_means : forall e d d',
+  money_close e d d' <->
+  match d_gain d, d_gain d' with
+  | Some x, Some y => (y - e <= x /\ x <= y + e)%Qc | None, None => True | _, _ => False end /\
+  match s_acb (d_post d), s_acb (d_post d') with
+  | Some x, Some y => (y - e <= x /\ x <= y + e)%Qc | None, None => True | _, _ => False end.
+Proof. intros e d d'. reflexivity. Qed.
+Check C15_money_close_means : forall e d d',
+  money_close e d d' <->
+  match d_gain d, d_gain d' with
+  | Some x, Some y => (y - e <= x /\ x <= y + e)%Qc | None, None => True | _, _ => False end /\
+  match s_acb (d_post d), s_acb (d_post d') with
+  | Some x, Some y => (y - e <= x /\ x <= y + e)%Qc | None, None => True | _, _ => False end.
+Print Assumptions C15_money_close_means.
+
+(* Non-vacuity (k = 1): buy 3 at 3 plus 1 commission, sell 1 at 5 (per-share
+   cost 10/3: rounds); then a 5-for-2 split is inserted and the four later rows
+   (buy 2 at 1, return of capital 0.1 per share, sell 2 at 4, sell 1 at 7) are
+   restated (shares x 2.5, per-share amounts / 2.5).  All hypotheses of the
+   theorem hold; both rounded reports are complete (6 and 7 rows) and in the
+   class; the gain of the sale of 2 shares (row 4 / row 5) DIFFERS between the
+   two rounded reports (3.3666666666666666666666666664 against ...65) and is
+   within (5 + 6) * cR 1, as the theorem says. *)
+Definition exd_split := [mk 250 (Split (q 5 1) (q 2 1) false) default_aff].
+Definition exd_pre := [mk 100 (Buy (q 3 1) (q 3 1) (q 1 1) (q 1 1) (q 1 1)) default_aff;
+                       mk 200 (Sell (q 1 1) (q 5 1) (q 0 1) (q 1 1) (q 1 1) None) default_aff].
+Definition exd_post := [mk 300 (Buy (q 2 1) (q 1 1) (q 0 1) (q 1 1) (q 1 1)) default_aff;
+                        mk 400 (Roc (q 1 10) (q 1 1)) default_aff;
+                        mk 500 (Sell (q 2 1) (q 4 1) (q 1 2) (q 1 1) (q 1 1) None) default_aff;
+                        mk 600 (Sell (q 1 1) (q 7 1) (q 0 1) (q 1 1) (q 1 1) None) default_aff].
+Example C15_dec_hypotheses_hold :
+  (0 < q 5 2)%Qc /\
+  Forall (fsplit (q 5 2) 250) exd_split /\ NoDup (ids_of exd_split) /\
+  Forall (fun x => In (af_id (t_af x)) (ids_of exd_split) /\ goodaf (fun _ => false) (t_af x)) (exd_pre ++ exd_split ++ exd_post) /\
+  Forall (fun x => (t_sd x <= 250)%Z) exd_pre /\ Forall (fun x => (250 <= t_sd x)%Z) exd_post /\
+  Forall no_int_only exd_post /\
+  Forall (fun t => valid_tx t = true) (exd_pre ++ exd_post) /\
+  Forall (fun t => valid_tx t = true) (exd_pre ++ exd_split ++ map (scale_tx (q 5 2)) exd_post).
+Proof.
+  assert (Eq : (q 5 1 / q 2 1)%Qc = q 5 2) by (apply Qc_is_canon; reflexivity).
+  assert (Hne : q 2 1 <> 0%Qc) by discriminate.
+  split; [reflexivity|].
+  split; [|split; [|split; [|split; [|split; [|split; [|split]]]]]].
+  - repeat constructor; exists (q 5 1), (q 2 1); repeat split; auto.
+  - repeat constructor; cbn; intuition; discriminate.
+  - unfold exd_pre, exd_split, exd_post; cbn [app].
+    repeat (apply Forall_cons; [split; [cbn; auto | reflexivity]|]). apply Forall_nil.
+  - repeat constructor; cbn; discriminate.
+  - repeat constructor; cbn; discriminate.
+  - repeat constructor.
+  - repeat constructor.
+  - vm_compute. repeat constructor.
+Qed.
+
+Example C15_dec_nonvacuous :
+  match run dec None (exd_pre ++ exd_post), run exact None (exd_pre ++ exd_post),
+        run dec None (exd_pre ++ exd_split ++ map (scale_tx (q 5 2)) exd_post),
+        run exact None (exd_pre ++ exd_split ++ map (scale_tx (q 5 2)) exd_post) with
+  | (dA, None), (eA, None), (dB, None), (eB, None) =>
+      length dA = 6%nat /\ length dB = 7%nat /\ in_class 1 dA eA = true /\ in_class 1 dB eB = true /\
+      match nth_error dA 4, nth_error dB 5 with
+      | Some a, Some b =>
+          match d_gain a, d_gain b with
+          | Some ga, Some gb =>
+              this ga <> this gb /\
+              (gb - (QcZ 5 * cR 1 + QcZ 6 * cR 1) <= ga)%Qc /\ (ga <= gb + (QcZ 5 * cR 1 + QcZ 6 * cR 1))%Qc
+          | _, _ => False
+          end
+      | _, _ => False
+      end
+  | _, _, _, _ => False
+  end.
+Proof. vm_compute. repeat split; discriminate. Qed.
